@@ -169,6 +169,16 @@ func execCase(c Case) (res vt.Result) {
 					rec.Count("exact_regime_small_filter", 1)
 				}
 			}
+			if (i+qi)%5 == 0 {
+				// now and then a search that the index refuses (its limit exceeds its search size; the HTTP
+				// layer would not let it through) comes first: whatever it answers, it must leave nothing
+				// behind that makes the searches after it fail
+				bad := q
+				bad.Limit, bad.SearchSize, bad.Filter = 60, 25, nil
+				if _, err := r.S.Search(models.SearchRequest{Query: bad.ToQuery(c.H.Schema)}); err != nil {
+					rec.Count("refused_searches_before_a_judged_one", 1)
+				}
+			}
 			var first []drive.Row
 			for _, inst := range []struct {
 				s    *drive.Shard
